@@ -92,6 +92,8 @@ type interpreter struct {
 	funcs     map[string]int64
 	curV      uint64
 	fmtDepth  int
+	frozen    map[*value]bool
+	frozenMap map[*omap]bool
 	pools     map[*value][]value
 	onces     map[*value]bool
 	unwinding bool
@@ -283,7 +285,11 @@ func visitInstr(fr *frame, instr ssa.Instruction) continuation {
 		fr.get(instr.Chan).(chan value) <- fr.get(instr.X)
 
 	case *ssa.Store:
-		store(typeparams.MustDeref(instr.Addr.Type()), fr.get(instr.Addr).(*value), fr.get(instr.Val))
+		addr := fr.get(instr.Addr).(*value)
+		if fr.i.frozen != nil && fr.i.frozen[addr] {
+			fr.i.sharedWrite("store", fr)
+		}
+		store(typeparams.MustDeref(instr.Addr.Type()), addr, fr.get(instr.Val))
 
 	case *ssa.If:
 		succ := 1
@@ -453,6 +459,9 @@ func visitInstr(fr *frame, instr ssa.Instruction) continuation {
 		v := fr.get(instr.Value)
 		switch m := m.(type) {
 		case *omap:
+			if fr.i.frozenMap != nil && fr.i.frozenMap[m] {
+				fr.i.sharedWrite("map update", fr)
+			}
 			m.insert(fr.i, key, v)
 		default:
 			panic(fmt.Sprintf("illegal map type: %T", m))
